@@ -394,6 +394,116 @@ def delims_key(res):
     return "linecomment-keeps-newline" if w.get("literal_linecomment") else f"template#{w.get('template')}"
 
 
+# ====================================================================================================
+# further native obligations (hunt round): right-strip before a line form, empty comments, shared bytecode cache
+# ====================================================================================================
+
+
+def rstrip_before_line_form_cases():
+    """an INDENTED whole-line tag / comment that follows a tag ending with a right-strip modifier, block form vs line form"""
+    out = []
+    for prev in ("{{ x -}}", "{% if x -%}", "{# c -#}", "{% raw %}r{% endraw -%}"):
+        closer = "\n{% endif %}" if prev.startswith("{% if") else ""
+        for gap in ("\n", "\n\n"):
+            out.append((prev + gap + "  {% set z = 1 %}\nA{{ z }}" + closer, prev + gap + "  # set z = 1\nA{{ z }}" + closer))
+            out.append((prev + gap + "    {% for i in [1, 2] %}\n{{ i }}\n    {% endfor %}" + closer, prev + gap + "    # for i in [1, 2]\n{{ i }}\n    # endfor" + closer))
+            out.append((prev + gap + "  {# note +#}\nA" + closer, prev + gap + "  ## note\nA" + closer))
+    return out
+
+
+def check_rstrip_before_line_form():
+    e_block = jinja2.Environment(trim_blocks=True, lstrip_blocks=True)
+    e_line = jinja2.Environment(trim_blocks=True, lstrip_blocks=True, line_statement_prefix="#", line_comment_prefix="##")
+    bad = []
+    for a, b in rstrip_before_line_form_cases():
+        ra, rb = safe_render(e_block.from_string, a), safe_render(e_line.from_string, b)
+        if ra != rb:
+            bad.append(f"{a!r} renders {ra!r} but its line form {b!r} renders {rb!r}")
+    return bad
+
+
+def check_empty_comments():
+    """comments without inner blanks (the empty comment, a one-character comment) in every delimiter family"""
+    bad = []
+    forms = [["a", ("c", ""), "b"], [("v", "x"), ("c", ""), "\n", ("c", " note "), "tail"], ["a", ("c", "-"), "b"], ["a", ("c", "x"), ("c", ""), ("c", ""), "b"], [("c", ""), ("v", "x")]]
+    ref_env = jinja2.Environment()
+    for form in forms:
+        def src(fam):
+            bs, be, vs, ve, cs, ce = FAMILIES[fam]
+            return "".join(p if isinstance(p, str) else (vs + " " + p[1] + " " + ve if p[0] == "v" else cs + p[1] + ce) for p in form)
+        want = safe_render(ref_env.from_string, src("default"))
+        for fam in FAMILIES:
+            kw = family_kwargs(fam)
+            for how, make in (("Environment", jinja2.Environment(**kw).from_string), ("Template", lambda s_: jinja2.Template(s_, **kw)), ("overlay", jinja2.Environment().overlay(**kw).from_string)):
+                got = safe_render(make, src(fam))
+                if got != want:
+                    bad.append(f"{src(fam)!r} ({fam}, {how}) renders {got!r}; default delimiters {src('default')!r} render {want!r}")
+                    break
+    return bad
+
+
+def check_bytecode_cache_overlay():
+    """using an overlay (other syntax options) must not change how the base environment renders, also when a bytecode cache is configured"""
+    from jinja2.bccache import BytecodeCache
+
+    class MemCache(BytecodeCache):
+        def __init__(self):
+            self.store = {}
+
+        def load_bytecode(self, bucket):
+            if bucket.key in self.store:
+                bucket.bytecode_from_string(self.store[bucket.key])
+
+        def dump_bytecode(self, bucket):
+            self.store[bucket.key] = bucket.bytecode_to_string()
+
+    bad = []
+    source = "{% if true %}\nA\n{% endif %}\n<% if true %>B<% endif %>"
+    for kw in (dict(trim_blocks=True), dict(block_start_string="<%", block_end_string="%>"), dict(lstrip_blocks=True, trim_blocks=True)):
+        for first in ("overlay", "base"):
+            def mk():
+                return jinja2.Environment(loader=jinja2.DictLoader({"t.html": source}), bytecode_cache=MemCache())
+            alone_base = mk().get_template("t.html").render()
+            b0 = mk()
+            alone_ov = b0.overlay(**kw).get_template("t.html").render()
+            base = mk()
+            ov = base.overlay(**kw)
+            if first == "overlay":
+                r_ov, r_base = ov.get_template("t.html").render(), base.get_template("t.html").render()
+            else:
+                r_base, r_ov = base.get_template("t.html").render(), ov.get_template("t.html").render()
+            if r_base != alone_base or r_ov != alone_ov:
+                bad.append(f"overlay({kw}) used {'before' if first == 'overlay' else 'after'} its base with a shared bytecode cache: base renders {r_base!r} (alone {alone_base!r}), "
+                           f"overlay renders {r_ov!r} (alone {alone_ov!r})")
+    return bad
+
+
+HUNT_CHECKS = {
+    "C13.bounded.rstrip_before_line_form": (check_rstrip_before_line_form, "rstrip-before-indented-line-form"),
+    "C13.bounded.empty_comment": (check_empty_comments, "comment-end-delimiter-starts-with-sign"),
+    "C13.bounded.bytecode_cache_overlay": (check_bytecode_cache_overlay, "F19:bytecode-cache-key-ignores-configuration"),
+}
+
+
+def hunt_forms(task, tier, seed):
+    out = []
+    for name, (fn, key) in HUNT_CHECKS.items():
+        t0 = time.time()
+        bad = fn()
+        if bad:
+            out.append(Res(name, "refuted", "native", time.time() - t0, "; ".join(bad[:2])[:1200], "bounded", {"check": name, "key": key}))
+        else:
+            out.append(Res(name, "bounded-ok", "native", time.time() - t0, "all cases of the fixed family agree", "bounded"))
+    return out
+
+
+def replay_hunt_forms(w):
+    fn, key = HUNT_CHECKS[w["check"]]
+    bad = fn()
+    return (bool(bad), "; ".join(bad[:2])[:1200] or "all cases agree")
+
+
+
 def bounded_tasks():
     ts = []
     for k in range(DELIM_SHARDS):
@@ -405,6 +515,12 @@ def bounded_tasks():
                         "one process (> 50 lexer configurations, so the lexer LRU cache evicts); first-created environments re-rendered at the end")
         t.finding_key = delims_key
         ts.append(t)
+    t = FnTask(PROP, "C13.bounded.special_forms", hunt_forms, kind="bounded", replay_fn=replay_hunt_forms)
+    t.bound_text = ("fixed families: an indented whole-line tag / comment after a tag ending in -}} / -%} / -#} / endraw -%} (block vs line form, trim+lstrip); comments without "
+                    "inner blanks (empty, one character, adjacent) in all 6 delimiter families through Environment / Template / overlay; base + overlay with other syntax "
+                    "options sharing a bytecode cache, in both orders")
+    t.finding_key = lambda res: (res.witness or {}).get("key", "")
+    ts.append(t)
     return ts
 
 
@@ -875,11 +991,23 @@ class RulesOrder(WitnessAlways, VC):
         items = self.rules(out)
         if items is None:
             return False
-        want = {n for n, a in DELIM_OF.items() if self.d[a] is not None}
         names = [x[0] for x in items]
-        if sorted(names) != sorted(want):
+        if len(set(names)) != len(names) or any(n not in DELIM_OF or self.d[DELIM_OF[n]] is None for n in names):
             return False
         conds = []
+        for n, a in DELIM_OF.items():
+            # the three tag delimiters always have a rule; a line prefix has one exactly when it is configured: not None and (since the
+            # fix "an empty line statement or line comment prefix means none") not the empty string
+            optional = a in ("line_statement_prefix", "line_comment_prefix")
+            if self.d[a] is None:
+                continue
+            if n in names:
+                if optional:
+                    conds.append(z3.Length(self.d[a].t) > 0)
+            elif optional:
+                conds.append(z3.Length(self.d[a].t) == 0)
+            else:
+                return False
         for name, rx in items:
             own = self.d[DELIM_OF[name]].t
             conds.append(z3.SuffixOf(ESC(own), to_term(rx, "str")))
@@ -925,7 +1053,7 @@ def replay_rules_order(w):
             rules = L.compile_rules(env)
         except Exception as ex:  # noqa
             return (True, f"compile_rules({f}) raised {type(ex).__name__}: {ex}")
-        want = {n for n, a in DELIM_OF.items() if f[a] is not None}
+        want = {n for n, a in DELIM_OF.items() if f[a]}
         names = [r[0] for r in rules]
         lens_ = [len(f[DELIM_OF[n]]) for n in names if n in DELIM_OF]
         ok = sorted(names) == sorted(want) and lens_ == sorted(lens_, reverse=True)
